@@ -263,3 +263,21 @@ def test_c20_unpickled_struct_has_its_cached_structure():
     d = PickleD(a=[1.0, 2.0], b="xyz", k=3)
     e = pickle.loads(pickle.dumps(d))
     assert (e.b, e.k, e.a[1]) == ("xyz", 3, 2.0) and e._size == d._size
+
+
+def test_c18_by_value_assignment_does_not_alias_nested_parts():
+    class Inn(xo.HybridClass):
+        _xofields = {"a": xo.Int64}
+
+    class Mid(xo.HybridClass):
+        _xofields = {"z": xo.Int16, "inn": Inn}
+
+    class Out(xo.HybridClass):
+        _xofields = {"mid": Mid, "t": xo.Float64}
+
+    b = ctx.new_buffer(0)
+    m = Mid(z=1, inn={"a": 5}, _buffer=b)
+    o = Out(mid={"z": 0, "inn": {"a": 0}}, t=1.0, _buffer=b)
+    o.mid = m
+    o.mid.inn.a = 77
+    assert m.inn.a == 5 and o._xobject.mid.inn.a == 77
